@@ -265,7 +265,7 @@ theorem recvN_open_to (s : Server) (n d tok : Nat) (y : Conn) (hy : s.conns[d]? 
   unfold recvN
   simp only [hy]
   cases hk : y.kind
-  · simp [ho]
+  · simp [ho]; split <;> simp
   · simp only []
     split
     · simp
